@@ -1613,6 +1613,14 @@ class HasRounds(GenericHandler):
         # replace max_desired_rounds
         if max_desired_rounds is None:
             max_desired_rounds = cls.max_desired_rounds
+            if (
+                explicit_min_rounds
+                and max_desired_rounds
+                and max_desired_rounds < subcls.min_desired_rounds
+            ):
+                # new minimum is above the inherited maximum: the maximum follows it
+                # (silently -- raising the minimum past the old maximum is a supported use)
+                max_desired_rounds = subcls.max_desired_rounds = subcls.min_desired_rounds
         else:
             if isinstance(max_desired_rounds, str):
                 max_desired_rounds = int(max_desired_rounds)
